@@ -43,7 +43,7 @@ Section K.
 
   Definition floodPlainDepositionEmperical (outflow totalDailyConstsituentMass
       bankFullFlow fineSedSettVelocityFlood floodPlainArea : T) : T :=
-    if orb (outflow <? bankFullFlow) (bankFullFlow =? zero) then zero
+    if orb (outflow <=? bankFullFlow) (bankFullFlow =? zero) then zero
     else
       let Qf := outflow - bankFullFlow in
       let FloodFlowProp := Qf / outflow in
@@ -124,13 +124,20 @@ Section K.
   Definition fine_rows (a b c d e : list T) : list fine_in :=
     map (fun r => let '(a, b, c, d, e) := r in mk_fine_in a b c d e) (zip5 a b c d e).
 
-  (** the bankFullFlow <= 1e-8 path: LumpedConstituentTransport on upstream +
-      lateral mass only; reachLocalMass is not used; the four other outputs are
-      never written *)
+  (** the bankFullFlow <= 1e-8 path: LumpedConstituentTransport of everything that
+      enters the reach: the Go code first builds the series lateralMass[i] +
+      reachLocalMass[i] and passes it as the lateral load (no point input, no
+      point-source output); the four other outputs are never written.  One loop
+      iteration, on the state totalStoredMass: *)
+  Definition fine_to_lumped (x : fine_in) : lumped_in :=
+    mk_lumped_in (fi_upstreamMass x) (fi_lateralMass x + fi_reachLocalMass x) (fi_outflow x) (fi_reachVolume x).
+
+  Definition fine_lowbank_step (p : fine_params) (totalStoredMass : T) (x : fine_in) : T * lumped_out :=
+    lumped_step zero (fp_durationInSeconds p) totalStoredMass (fine_to_lumped x).
+
   Definition fine_lowbank (p : fine_params) (channelStoreFine totalStoredMass : T)
-      (upstreamMass lateralMass reachVolume outflow : list T) : (T * T) * list lumped_out :=
-    let (s', os) := lumped_transport upstreamMass (Some lateralMass) outflow reachVolume
-                      totalStoredMass zero (fp_durationInSeconds p) in
+      (rows : list fine_in) : (T * T) * list lumped_out :=
+    let (s', os) := run (fine_lowbank_step p) totalStoredMass rows in
     ((channelStoreFine, s'), os).
 
   (** params (13, spec order); states channelStoreFine totalStoredMass; inputs
@@ -145,7 +152,7 @@ Section K.
         let p := mk_fine_params bff vflood fpa lw ll ls bh pbh sbd mn vs vr dt in
         if bff <=? FS_BANKFULL_EPS then
           let '((c', s'), os) := fine_lowbank p channelStoreFine totalStoredMass
-                                   upstreamMass lateralMass reachVolume outflow in
+                                   (fine_rows upstreamMass lateralMass reachLocalMass reachVolume outflow) in
           Some ([map lo_outflowLoad os; zeros os; zeros os; zeros os; zeros os], [c'; s'])
         else
           let '((c', s'), os) := run (fine_step p) (fine_init_store p channelStoreFine, totalStoredMass)
